@@ -7,81 +7,10 @@
     response serialises, data or errors; and the stage-contract checks of the composed model hold.
     Every other stream goes to the glue check (Pipe/PipelineCheck.v).  Executable only. *)
 From Coq Require Import List NArith ZArith Bool String Ascii.
-From ApiFu Require Import Base.Sexp Pipe.PipelineModel Pipe.PipelineCheck Pipe.Convert Pipe.Compose.
+From ApiFu Require Import Base.Sexp Pipe.PipelineModel Pipe.PipelineCheck Pipe.Convert Pipe.Compose Pipe.SchemaAgree.
 From ApiFu Require Syn.Ast Syn.ParserModel Syn.FrontEnd Vld.Ast Vld.Inspect Vld.TypeInfoModel Vld.ValidatorModel Vld.Decode Vld.ValidatorCheck Exe.ExecData Exe.ExecModel Exe.ExecHyps Exe.ExecDecode Exe.ExecCheck.
 Import ListNotations.
 Open Scope string_scope.
-
-(** ** the two encodings describe one schema: same output types under the same names, same root
-    types (the executor encoding has no input objects, arguments, directives, feature gates) *)
-Fixpoint sty_agree (a : Vld.Ast.sty) (b : Exe.ExecData.sty) : bool :=
-  match a, b with
-  | Vld.Ast.StNamed x, Exe.ExecData.StNamed y => bytes_eqb x y
-  | Vld.Ast.StList x, Exe.ExecData.StList y => sty_agree x y
-  | Vld.Ast.StNonNull x, Exe.ExecData.StNonNull y => sty_agree x y
-  | _, _ => false
-  end.
-
-Fixpoint names_agree (a b : list bytes) : bool :=
-  match a, b with
-  | [], [] => true
-  | x :: a', y :: b' => bytes_eqb x y && names_agree a' b'
-  | _, _ => false
-  end.
-
-Definition fields_agree (vf : list (Vld.Ast.name * Vld.Ast.field_def)) (ef : list (Exe.ExecData.name * Exe.ExecData.sty)) : bool :=
-  Nat.eqb (List.length vf) (List.length ef) &&
-  forallb (fun f : Exe.ExecData.name * Exe.ExecData.sty =>
-             match Vld.Ast.assoc (fst f) vf with
-             | Some d => sty_agree (Vld.Ast.f_type d) (snd f)
-                         && match Vld.Ast.f_args d with [] => true | _ => false end
-                         && match Vld.Ast.f_req d with [] => true | _ => false end
-             | None => false
-             end) ef.
-
-Definition scalar_agree (v : Vld.Ast.scalar) (e : Exe.ExecData.scalar_kind) : bool :=
-  match v, e with
-  | Vld.Ast.SInt, Exe.ExecData.KInt | Vld.Ast.SFloat, Exe.ExecData.KFloat | Vld.Ast.SString, Exe.ExecData.KString
-  | Vld.Ast.SBoolean, Exe.ExecData.KBoolean | Vld.Ast.SID, Exe.ExecData.KID => true
-  | _, _ => false
-  end.
-
-Definition type_agree (VS : Vld.Ast.schema) (nt : Exe.ExecData.name * Exe.ExecData.named_type) : bool :=
-  match Vld.Ast.raw_type VS (fst nt) with
-  | None => false
-  | Some d =>
-      match Vld.Ast.t_req d with [] => true | _ => false end &&
-      match Vld.Ast.t_body d, snd nt with
-      | Vld.Ast.TScalar k, Exe.ExecData.NScalar k' => scalar_agree k k'
-      | Vld.Ast.TEnum vs, Exe.ExecData.NEnum vs' =>
-          Nat.eqb (List.length vs) (List.length vs') && forallb (fun v => Vld.Ast.mem (fst v) vs) vs'
-      | Vld.Ast.TObject fs is, Exe.ExecData.NObject fs' is' => fields_agree fs fs' && names_agree is is'
-      | Vld.Ast.TInterface fs, Exe.ExecData.NInterface fs' => fields_agree fs fs'
-      | Vld.Ast.TUnion ms, Exe.ExecData.NUnion ms' => names_agree ms ms'
-      | Vld.Ast.TInput _, Exe.ExecData.NInput => true
-      | _, _ => false
-      end
-  end.
-
-Definition is_introspection (n : bytes) : bool :=
-  match n with 95%N :: 95%N :: _ => true | _ => false end.
-
-Definition opt_names_agree (a b : option bytes) : bool :=
-  match a, b with
-  | None, None => true
-  | Some x, Some y => bytes_eqb x y
-  | _, _ => false
-  end.
-
-Definition schemas_agree (VS : Vld.Ast.schema) (ES : Exe.ExecData.schema) : bool :=
-  forallb (type_agree VS) (Exe.ExecData.types ES)
-  && forallb (fun nd : Vld.Ast.name * Vld.Ast.type_def =>
-                is_introspection (fst nd)
-                || match Exe.ExecData.lookup_type ES (fst nd) with Some _ => true | None => false end)
-             (Vld.Ast.s_types VS)
-  && bytes_eqb (Vld.Ast.s_query VS) (Exe.ExecData.query ES)
-  && opt_names_agree (Vld.Ast.s_mutation VS) (Exe.ExecData.mutation ES)
-  && opt_names_agree (Vld.Ast.s_subscription VS) (Exe.ExecData.subscription ES).
 
 (** ** decoding *)
 Definition dec_loc_list (s : sexp) : option (list Vld.Ast.pos) := as_list_of Vld.Decode.dec_pos s.
@@ -134,6 +63,22 @@ Definition of_presult (r : presult) : sexp :=
   | POutOfFuel _ => tag "out-of-fuel" []
   end.
 
+(** the locations of the validation errors are compared only when they do not depend on the order
+    in which Go ranges over the validator's maps (C04's [stable]: the model under [id_order] and
+    under [rev_order] reports the same multiset) *)
+Definition invalid_locs (o : Vld.Ast.outcome) : list Vld.Ast.pos :=
+  match o with
+  | Vld.Ast.Done errs => Vld.ValidatorCheck.sort_pos (flat_map Vld.Ast.e_locs errs)
+  | _ => []
+  end.
+Definition locations_stable (VS : Vld.Ast.schema) (F : Vld.Ast.features) (bs : bytes) : bool :=
+  match Syn.FrontEnd.parse_document_bytes bs with
+  | Syn.ParserModel.Out (Some d) [] =>
+      Vld.ValidatorCheck.pos_list_eqb (invalid_locs (validate_doc Vld.ValidatorModel.id_order VS F d))
+                                      (invalid_locs (validate_doc Vld.ValidatorModel.rev_order VS F d))
+  | _ => true
+  end.
+
 Definition has_errors (o : Exe.ExecDecode.observed) : bool :=
   match o with Exe.ExecDecode.ObsDone _ (_ :: _) => true | _ => false end.
 
@@ -158,9 +103,10 @@ Definition judge_composed (kind : string) (VS : Vld.Ast.schema) (F : Vld.Ast.fea
       end
   | PInvalid e es =>
       match obs with
-      | SeenInvalid errs =>
-          if Vld.ValidatorCheck.pos_list_eqb (Vld.ValidatorCheck.sort_pos (List.concat errs))
-                                             (Vld.ValidatorCheck.sort_pos (flat_map Vld.Ast.e_locs (e :: es)))
+      | SeenInvalid ((_ :: _) as errs) =>
+          if negb (locations_stable VS F bs) then cls ["composed-validation-rejected"; "order-sensitive-locations"; "nontrivial"]
+          else if Vld.ValidatorCheck.pos_list_eqb (Vld.ValidatorCheck.sort_pos (List.concat errs))
+                                                  (Vld.ValidatorCheck.sort_pos (flat_map Vld.Ast.e_locs (e :: es)))
           then cls ["composed-validation-rejected"; "nontrivial"]
           else mism "composed-validation-locations"
       | _ => mism "composed-class"
@@ -282,7 +228,8 @@ Definition judge_front (bs : bytes) (fr : list sexp) (glue : sexp) : sexp :=
                 | FInvalid e es =>
                     match plocs, vlocs with
                     | [], _ :: _ =>
-                        if Vld.ValidatorCheck.pos_list_eqb (Vld.ValidatorCheck.sort_pos (List.concat vlocs))
+                        if negb (locations_stable VS [] bs) then add_classes glue ["front-validation-rejected"; "order-sensitive-locations"]
+                        else if Vld.ValidatorCheck.pos_list_eqb (Vld.ValidatorCheck.sort_pos (List.concat vlocs))
                                                            (Vld.ValidatorCheck.sort_pos (flat_map Vld.Ast.e_locs (e :: es)))
                         then add_classes glue ["front-validation-rejected"]
                         else v_mismatch "front-validation-locations" [of_front m]
